@@ -139,10 +139,60 @@ func (b *BinaryExpression) SQL() string {
 	if b == nil {
 		return ""
 	}
-	op := b.Operator
-	if b.CustomOp != nil {
-		op = b.CustomOp.String()
+	// The parser builds a op b op c ... as a left-deep tree. Its left spine is unrolled
+	// and written into one buffer: composing each level from the finished string of its
+	// left operand would copy the whole prefix once per level.
+	spine := []*BinaryExpression{b}
+	for {
+		cur := spine[len(spine)-1]
+		l, ok := cur.Left.(*BinaryExpression)
+		if !ok || l == nil || !cur.plainLinkTo(l) {
+			break
+		}
+		spine = append(spine, l)
 	}
+	if len(spine) == 1 {
+		return b.nodeSQL()
+	}
+	var sb strings.Builder
+	sb.WriteString(spine[len(spine)-1].nodeSQL())
+	for i := len(spine) - 2; i >= 0; i-- {
+		n := spine[i]
+		op := n.operatorText()
+		sb.WriteByte(' ')
+		sb.WriteString(op)
+		sb.WriteByte(' ')
+		sb.WriteString(operandSQL(n.Right, sqlOperatorPrecedence(strings.ToUpper(op)), true))
+	}
+	return sb.String()
+}
+
+func (b *BinaryExpression) operatorText() string {
+	if b.CustomOp != nil {
+		return b.CustomOp.String()
+	}
+	return b.Operator
+}
+
+// plainLinkTo reports whether b is written as "<left> op <right>" with its left operand l
+// unparenthesised, i.e. whether nodeSQL would produce exprSQL(l) + " op " + right.
+func (b *BinaryExpression) plainLinkTo(l *BinaryExpression) bool {
+	upperOp := strings.ToUpper(b.operatorText())
+	if b.Right == nil || b.Not || upperOp == "IS NULL" || upperOp == "IS NOT NULL" {
+		return false
+	}
+	prec := sqlOperatorPrecedence(upperOp)
+	lop := strings.ToUpper(l.operatorText())
+	p := sqlOperatorPrecedence(lop)
+	if (l.Not && p != 4) || (l.Right == nil && lop == "NOT") {
+		p = 3
+	}
+	return !(p < prec || (p == prec && prec == 4))
+}
+
+// nodeSQL writes one binary expression from the finished strings of its operands.
+func (b *BinaryExpression) nodeSQL() string {
+	op := b.operatorText()
 	upperOp := strings.ToUpper(op)
 
 	// NOT EXISTS (...) is represented as a binary expression without a right operand
@@ -904,13 +954,28 @@ func (s *SetOperation) SQL() string {
 	if s == nil {
 		return ""
 	}
-	left := stmtSQL(s.Left)
-	right := stmtSQL(s.Right)
-	op := s.Operator
-	if s.All {
-		op += " ALL"
+	// A op B op C ... is left-deep; the left spine is unrolled into one buffer
+	spine := []*SetOperation{s}
+	for {
+		l, ok := spine[len(spine)-1].Left.(*SetOperation)
+		if !ok || l == nil {
+			break
+		}
+		spine = append(spine, l)
 	}
-	return fmt.Sprintf("%s %s %s", left, op, right)
+	var sb strings.Builder
+	sb.WriteString(stmtSQL(spine[len(spine)-1].Left))
+	for i := len(spine) - 1; i >= 0; i-- {
+		n := spine[i]
+		sb.WriteByte(' ')
+		sb.WriteString(n.Operator)
+		if n.All {
+			sb.WriteString(" ALL")
+		}
+		sb.WriteByte(' ')
+		sb.WriteString(stmtSQL(n.Right))
+	}
+	return sb.String()
 }
 
 func (v *Values) SQL() string {
